@@ -75,7 +75,14 @@ func unhx(s string) []byte {
 	if err != nil {
 		panic("harness: bad hex token " + s)
 	}
-	return b
+	// hand the bytes over as a sub-slice of a larger buffer whose spare capacity holds junk: code that
+	// re-slices past len(), or appends into the caller's array and trusts what it finds there, shows up
+	c := make([]byte, len(b)+24)
+	copy(c, b)
+	for i := len(b); i < len(c); i++ {
+		c[i] = 0xA5
+	}
+	return c[:len(b)]
 }
 func okHex(b []byte) string  { return "ok " + hx(b) }
 func okStr(s string) string  { return "ok " + hx([]byte(s)) }
